@@ -43,16 +43,18 @@ def r1_lossless(ctx, sym, mod):
               construct=text)
     fn = mod.func('separate_into_sections')
     ctx.analysed_function(mod, fn)
-    splits = [c for c in calls(fn) if call_name(c) == 're.split']
-    ok = len(splits) == 1
-    if ok:
-        c = splits[0]
-        ok = norm(c.args[0]) == 'pattern' and norm(c.args[1]) == 'report.submission.main_code' and \
-            norm(kw(c, 'flags')) == 're.MULTILINE' and isinstance(c._parent, ast.Assign) and \
-            norm(c._parent.targets[0]).endswith("['sections']")
-    ctx.check(ok, 'R1', 'separate_into_sections:split', mod, splits[0] if splits else fn,
-              "sections are not re.split(pattern, report.submission.main_code, flags=re.MULTILINE) stored unchanged",
-              "a file whose markers are not on the first line is not split, or the text is altered before splitting")
+    if groups == 1:
+        pat = re.compile(text, re.MULTILINE)
+        for sample in SAMPLES:
+            sess = Session(ctx, sym, mod, sample, True)
+            raised = sess.separate()
+            got = sess.source.get('sections')
+            ok = raised is None and isinstance(got, list) and got == pat.split(sample) and ''.join(got) == sample
+            ctx.check(ok, 'R1', 'separate_into_sections:split[%r]' % sample[:24], mod, fn,
+                      "separate_into_sections (executed abstractly) stores %r for the file %r; a lossless split "
+                      "stores %r%s" % (got, sample, pat.split(sample),
+                                       '' if raised is None else ' (raises %s)' % raised.kind),
+                      "the file %r" % sample, construct='separate_into_sections')
     d = fn.args.defaults
     ctx.check(any(norm(x) == 'DEFAULT_SECTION_PATTERN' for x in d), 'R1', 'separate_into_sections:default-pattern', mod,
               fn, "default pattern is not DEFAULT_SECTION_PATTERN", "default markers not recognised")
@@ -71,6 +73,68 @@ SAMPLES = [
 ]
 
 
+class Session:
+    """A model report/submission on which separate_into_sections, next_section and stop_sections are executed
+    abstractly, in sequence, on one shared state - as a grading script does."""
+
+    def __init__(self, ctx, sym, mod, text, independent):
+        self.ctx, self.sym, self.mod, self.text, self.independent = ctx, sym, mod, text, independent
+        self.tool = sym.const(mod, ast.parse('TOOL_NAME', mode='eval').body)
+        self.log = log = []
+        sub = self.submission = Obj('submission', main_code=text, main_file='answer.py')
+
+        def replace_main(code, filename=None, *a, **k):
+            log.append(('replace_main', code, filename))
+            sub.attrs['main_code'] = code
+            if filename is not None:
+                sub.attrs['main_file'] = filename
+        sub.attrs['method:replace_main'] = replace_main
+        sub.attrs['method:set_line_offset'] = lambda n, filename=None: log.append(('offset', n))
+        sub.attrs['method:clear_line_offsets'] = lambda *a: log.append(('clear_offsets',))
+        self.source = {'substitutions': [], 'sections': None, 'section': None, 'independent': None,
+                       'section_group': None, 'success': True, 'section_pattern': None}
+        source = self.source
+        rep = self.report = Obj('report', submission=sub)
+        rep.attrs['method:__getitem__'] = lambda k: source if k == self.tool else None
+        rep.attrs['method:execute_hooks'] = lambda *a: None
+        rep.attrs['method:add_hook'] = lambda *a, **k: log.append(('add_hook',) + tuple(a[:1]))
+        rep.attrs['method:stop_group'] = lambda g: log.append(('stop_group', g))
+        rep.attrs['method:start_group'] = lambda g: log.append(('start_group', g))
+
+    def _fd(self):
+        from ..fdeval import module_resolver
+        fd = FD(max_steps=100000, resolver=module_resolver(self.sym, self.mod))
+        fd.calls['FeedbackSourceSection'] = lambda n, **k: ('group', n)
+        fd.calls['Substitution'] = lambda code, filename=None: Obj('substitution', code=code, filename=filename)
+        fd.calls['not_enough_sections'] = lambda *a, **kw: self.log.append(('not_enough_sections',) + a)
+
+        def re_split(pattern, string, maxsplit=0, flags=0):
+            if not isinstance(pattern, str) or not isinstance(string, str):
+                raise Inconclusive('re.split on non-concrete operands')
+            return re.split(pattern, string, maxsplit=maxsplit, flags=flags)   # stdlib on literals/sample data
+        fd.calls['re.split'] = re_split
+        return fd
+
+    def _run(self, name, args, kwargs):
+        fn = self.mod.func(name)
+        try:
+            self._fd().call_function(fn, list(args), kwargs)
+        except Raised as e:
+            return e
+        except Inconclusive as e:
+            raise AnalysisError("C17: %s outside the decidable fragment: %s" % (name, e))
+        return None
+
+    def separate(self):
+        return self._run('separate_into_sections', [], {'independent': self.independent, 'report': self.report})
+
+    def next_section(self):
+        return self._run('next_section', [], {'report': self.report})
+
+    def stop(self):
+        return self._run('stop_sections', [], {'report': self.report})
+
+
 def r3_next_section_table(ctx, sym, mod, pattern_text):
     ctx.rule('R3', "decision table of next_section (abstract interpretation) over 6 file shapes (no markers, marker on "
                    "first/last line, adjacent markers, empty) x independent/cumulative x successive calls: the "
@@ -86,35 +150,20 @@ def r3_next_section_table(ctx, sym, mod, pattern_text):
         parts = pat.split(text)
         n_sections = len(parts) // 2
         for independent in (True, False):
-            log = []
-            submission = Obj('submission')
-            submission.attrs['method:replace_main'] = lambda code, file=None: log.append(('replace_main', code))
-            submission.attrs['method:set_line_offset'] = lambda n, filename=None: log.append(('offset', n))
-            source = {'substitutions': [Obj('old', code=text, filename='answer.py')], 'sections': list(parts),
-                      'section': 0, 'independent': independent, 'section_group': 'G0', 'success': True}
-            report = Obj('report', submission=submission)
-            report.attrs['method:__getitem__'] = lambda k: source if k == tool else None
-            report.attrs['method:execute_hooks'] = lambda *a: None
-            report.attrs['method:stop_group'] = lambda g: log.append(('stop_group', g))
-            report.attrs['method:start_group'] = lambda g: log.append(('start_group', g))
+            sess = Session(ctx, sym, mod, text, independent)
+            if sess.separate() is not None or sess.source.get('sections') != parts:
+                continue    # reported by R1
+            log = sess.log
             for k in range(1, n_sections + 3):
                 del log[:]
-                fd = FD()
-                fd.resolver = lambda name: {'TOOL_NAME': tool}[name]
-                fd.functions['_calculate_section_number'] = calc
-                fd.calls['FeedbackSourceSection'] = lambda n: ('group', n)
-                fd.calls['not_enough_sections'] = lambda *a, **kw: log.append(('not_enough_sections',) + a)
                 key = 'next_section[%r,%s,k=%d]' % (text[:24], 'independent' if independent else 'cumulative', k)
-                try:
-                    fd.call_function(fn, [], {'report': report})
-                except Raised as e:
+                e = sess.next_section()
+                if e is not None:
                     ctx.fail('R3', key, mod, getattr(e, 'node', None) or fn,
                              "next_section raises %s (%s) for section %d of a file with %d section(s)" % (
                                  e.kind, e.detail, k, n_sections),
                              "calling next_section() %d time(s) on %r" % (k, text), function='next_section')
                     break
-                except Inconclusive as e:
-                    raise AnalysisError("C17 R3: next_section outside the decidable fragment: %s" % e)
                 mains = [x[1] for x in log if x[0] == 'replace_main']
                 offs = [x[1] for x in log if x[0] == 'offset']
                 missing = [x for x in log if x[0] == 'not_enough_sections']
@@ -305,33 +354,49 @@ def r4_restoration(ctx, sym, mod):
                    "(tool + '.' + event, constants resolved)")
     st = mod.func('stop_sections')
     ctx.analysed_function(mod, st)
-    pops = [n for n in body_walk(st) if isinstance(n, ast.Assign) and isinstance(n.value, ast.Call)
-            and norm(n.value).endswith("['substitutions'].pop()")]
-    ok = len(pops) == 1
-    if ok:
-        v = norm(pops[0].targets[0])
-        ok = any(isinstance(c.func, ast.Attribute) and c.func.attr == 'replace_main' and
-                 [norm(a) for a in c.args] == [v + '.code', v + '.filename'] for c in calls(st))
-    ctx.check(ok, 'R4', 'stop_sections:restores', mod, st,
-              "stop_sections does not restore the popped substitution's code and filename",
-              "after stop_sections() the submission's main code is still the last section")
     sep = mod.func('separate_into_sections')
-    pushed = [c for c in calls(sep) if isinstance(c.func, ast.Attribute) and c.func.attr == 'append'
-              and norm(c.func.value).endswith("['substitutions']")]
-    subs = [n for n in body_walk(sep) if isinstance(n, ast.Assign) and isinstance(n.value, ast.Call)
-            and call_name(n.value) == 'Substitution']
-    ok = len(pushed) == 1 and len(subs) == 1 and [norm(a) for a in subs[0].value.args] == [
-        'report.submission.main_code', 'report.submission.main_file'] and \
-        norm(pushed[0].args[0]) == norm(subs[0].targets[0])
-    ctx.check(ok, 'R4', 'separate_into_sections:backup', mod, sep,
-              "the original main code/file is not pushed as a substitution before the first chunk replaces it",
-              "the original text cannot be restored")
-    # the backup is taken before replace_main
-    order = [n for n in sep.body if (isinstance(n, ast.Assign) and n in subs) or
-             (isinstance(n, ast.Expr) and isinstance(n.value, ast.Call) and isinstance(n.value.func, ast.Attribute)
-              and n.value.func.attr == 'replace_main')]
-    ctx.check(len(order) == 2 and order[0] in subs, 'R4', 'separate_into_sections:backup-first', mod, sep,
-              "the backup is taken after the main code was replaced", "the 'original' is already the first chunk")
+    try:
+        ptext = sym.const(mod, mod.top_assign('DEFAULT_SECTION_PATTERN'))
+        n_groups = re.compile(ptext).groups
+    except (KeyError, re.error):
+        n_groups = 0
+    for text in SAMPLES[:5]:
+        for independent in (True, False):
+            tag = '[%r,%s]' % (text[:24], 'independent' if independent else 'cumulative')
+            sess = Session(ctx, sym, mod, text, independent)
+            e = sess.separate()
+            if e is not None:
+                ctx.fail('R4', 'separate_into_sections:completes' + tag, mod, sep,
+                         "separate_into_sections raises %s (%s)" % (e.kind, e.detail), "the file %r" % text)
+                continue
+            subs = sess.source.get('substitutions') or []
+            ok = len(subs) == 1 and isinstance(subs[0], Obj) and subs[0].attrs.get('code') == text and \
+                subs[0].attrs.get('filename') == 'answer.py'
+            ctx.check(ok, 'R4', 'separate_into_sections:backup' + tag, mod, sep,
+                      "after separate_into_sections the substitution stack does not hold exactly the original main "
+                      "code and file (it holds %r)" % [(getattr(x, 'attrs', {}).get('code'),
+                                                        getattr(x, 'attrs', {}).get('filename')) for x in subs],
+                      "the original text cannot be restored (a backup taken after the first chunk replaced the main "
+                      "code is already the first chunk)")
+            secs = sess.source.get('sections') or ['']
+            ctx.check(sess.submission.attrs['main_code'] == secs[0], 'R4', 'separate_into_sections:presents-prologue' + tag,
+                      mod, sep, "after separate_into_sections the main code is %r, not the prologue %r" % (
+                          sess.submission.attrs['main_code'], secs[0]), "tools analyse the wrong text before section 1")
+            # advance a few sections, then stop: the original file and name are back, nothing is left on the stack
+            if n_groups == 1:
+                for _ in range(min(2, len(secs) // 2)):
+                    if sess.next_section() is not None:
+                        break
+            e = sess.stop()
+            ok = e is None and sess.submission.attrs['main_code'] == text and \
+                sess.submission.attrs['main_file'] == 'answer.py' and not sess.source.get('substitutions') and \
+                sess.source.get('section_group') is None
+            ctx.check(ok, 'R4', 'stop_sections:restores' + tag, mod, st,
+                      "after stop_sections the main code is %r (file %r), substitutions %r%s" % (
+                          sess.submission.attrs['main_code'], sess.submission.attrs['main_file'],
+                          sess.source.get('substitutions'), '' if e is None else '; raises ' + e.kind),
+                      "after stop_sections() the submission's main code is still a section, or a later "
+                      "stop_any_sections() pops someone else's substitution")
     sa = mod.func('stop_any_sections')
     ok = any(isinstance(n, ast.If) and norm(n.test).endswith("['substitutions']") and
              any(call_name(c) == 'stop_sections' for c in calls(n)) for n in body_walk(sa))
